@@ -906,3 +906,11 @@ mutant('LC6-worker-panic-kept-only-after-another', ['C05'], [(S, """            
                         thread_panic.is_some()""")], ['|LC6|'])
 mutant('LC7-anchor-fault-reported-at-1', ['C04'], [(S, ".map_err(|e| GrevmError { txid: 0, error: EVMError::Database(e) })?;", ".map_err(|e| GrevmError { txid: 1, error: EVMError::Database(e) })?;")], ['|LC7|'])
 benign('LC1-ne-loop-bound', ['C05', 'C02'], [(S, "while !self.is_aborted() && commit_idx < self.block_size {", "while !self.is_aborted() && commit_idx != self.block_size {")])
+
+mutant('W1-notify-filtered-by-flag', ['C17', 'C05'], [
+    ('src/scheduler/wait.rs', "    pub(super) fn notify(&self) {\n        if let Some(thread) = self.thread.get() {", "    pub(super) fn notify(&self) {\n        if thread::panicking() {\n            return;\n        }\n        if let Some(thread) = self.thread.get() {"),
+], ['|W1|'])
+mutant('B4-committed-info-loses-code', ['C09', 'C07'], [
+    ('src/scheduler/ordered_commit.rs', ".map_err(|error| GrevmError { txid, error: EVMError::Database(error) })?;\n            let mut account = Account::from(reward.apply_to(info));",
+     ".map_err(|error| GrevmError { txid, error: EVMError::Database(error) })?\n                .map(|info| info.without_code());\n            let mut account = Account::from(reward.apply_to(info));"),
+], ['|B4|'])
